@@ -525,7 +525,7 @@ func (val Node) AsNumber(ctx *Context) (json.Number, bool) {
 func (val Node) NonstrAsNumber(ctx *Context) (json.Number, bool) {
 	// deal with raw number
 	if val.IsRawNumber() {
-		return val.Number(ctx), true
+		return copyNumber(ctx, val.Number(ctx)), true
 	}
 
 	// deal with parse number
@@ -538,7 +538,15 @@ func (val Node) NonstrAsNumber(ctx *Context) (json.Number, bool) {
 	if !ok {
 		return "", false
 	}
-	return json.Number(ctx.Parser.Json[start:end]), true
+	return copyNumber(ctx, json.Number(ctx.Parser.Json[start:end])), true
+}
+
+// copyNumber detaches the number text from the input JSON when CopyString is set.
+func copyNumber(ctx *Context, num json.Number) json.Number {
+	if ctx.Options()&(1<<_F_copy_string) == 0 {
+		return num
+	}
+	return json.Number(rt.Str2Mem(string(num)))
 }
 
 func (val Node) AsRaw(ctx *Context) string {
@@ -928,7 +936,7 @@ func parseSingleNode(node Node, ctx *Context) interface{} {
 	case KArray:
 		v = []interface{}{}
 	case KStringCommon:
-		v = node.StringRef(ctx)
+		v, _ = node.AsStr(ctx)
 	case KStringEscaped:
 		v = node.StringCopyEsc(ctx)
 	case KTrue:
@@ -944,7 +952,7 @@ func parseSingleNode(node Node, ctx *Context) interface{} {
 	case KReal:
 		v = float64(node.F64())
 	case KRawNumber:
-		v = node.Number(ctx)
+		v = copyNumber(ctx, node.Number(ctx))
 	default:
 		panic("unreachable for as eface")
 	}
